@@ -985,6 +985,12 @@ def corr_traced(ctx: Ctx) -> None:
                 if got in ("guard", "bad-op"):
                     return False
                 head, _, wit = got.partition(" wit=")
+                if " out=abort nan-direction" in head:
+                    # DESIGN §6 row 13 reached inside a real search: the skeleton stops here (the
+                    # code goes on with a NaN vector and fails with a reason); a C15 matter,
+                    # recorded, not a C04 divergence
+                    ctx.stats.notes["row13_nan_direction_in_run"] = ctx.stats.notes.get("row13_nan_direction_in_run", 0) + 1
+                    return True
                 if head != impl:
                     return False
                 if ret[0] is None:
